@@ -158,8 +158,11 @@ def run(ctx):
             sizes = [1, 3, 16] if ctx.scale == 1 else list(range(1, 17))
             for ps in sizes:
                 schedules.append(("threadpool-%d" % ps, ps))
+            schedules.append(("lost-update", "lost-update"))
             for name, pool in schedules:
                 cube = build(kind, case)
+                if pool == "lost-update":
+                    pool = P.LostUpdatePool(cube)
                 funcs = [f for _, f in funcs_for_same(kind, case, fs)]
                 ctx.case(dict(desc, schedule=name, seed=getattr(pool, "seed", None)), nontrivial=nsub >= 3)
                 ctx.hit("pool:" + name.split("-")[0])
@@ -187,6 +190,8 @@ def run(ctx):
                         cls="C16-differs")
                 if isinstance(pool, P.SeededInterleavingPool):
                     ctx.hit("line_switches", pool.switches)
+                if isinstance(pool, P.LostUpdatePool):
+                    ctx.hit("diagnostic_updates_lost", pool.lost)
 
 
 class Halt(BaseException):
